@@ -34,8 +34,8 @@ def lock_functions(ctx: Ctx) -> List[FunctionInfo]:
     return [f for f in ctx.prog.functions.values() if f.module.short in ("file_lock", "lock_provider")]
 
 
-def r1(ctx: Ctx) -> None:
-    ctx.rule("C19.R1", "non-blocking attempts: every exclusive flock carries LOCK_NB; msvcrt.locking uses LK_NBLCK", 2)
+def r1(ctx: Ctx, rid: str = "C19.R1") -> None:
+    ctx.rule(rid, "non-blocking attempts: every exclusive flock carries LOCK_NB; msvcrt.locking uses LK_NBLCK", 2)
     n_sites = 0
     for f in ctx.prog.functions.values():
         for n in ctx.calls(f, prim="fcntl.flock") + ctx.calls(f, prim="fcntl.lockf"):
@@ -43,14 +43,14 @@ def r1(ctx: Ctx) -> None:
             if "LOCK_UN" in flags and "LOCK_EX" not in flags:
                 continue
             n_sites += 1
-            ctx.ob("C19.R1", f, "flock(LOCK_EX | LOCK_NB)", n, "LOCK_NB" in flags,
+            ctx.ob(rid, f, "flock(LOCK_EX | LOCK_NB)", n, "LOCK_NB" in flags,
                    f"flags `{flags}`: a blocking flock would ignore the configured timeout (audit #31)", nontrivial=False)
         for n in ctx.calls(f, prim="msvcrt.locking"):
             mode = norm_text(n.ast.args[1]) if isinstance(n.ast, ast.Call) and len(n.ast.args) > 1 else ""
             if "LK_UNLCK" in mode:
                 continue
             n_sites += 1
-            ctx.ob("C19.R1", f, "msvcrt.locking(LK_NBLCK)", n, "LK_NBLCK" in mode or "LK_NBRLCK" in mode,
+            ctx.ob(rid, f, "msvcrt.locking(LK_NBLCK)", n, "LK_NBLCK" in mode or "LK_NBRLCK" in mode,
                    f"mode `{mode}`", nontrivial=False)
 
 
@@ -154,6 +154,38 @@ def r3(ctx: Ctx, rid: str) -> None:
                "what was judged expired is exactly what the IfMatch replaces")
         ctx.ob(rid, tk, "takeover only after the lease lapsed", p, ok_dom,
                "the takeover PUT is only reachable from the age > lease_seconds edge")
+    # self._etag may only ever hold the ETag of OUR OWN successful write (or None): adopting an ETag observed on the
+    # object (head/get) would let a superseded holder write itself back over its successor
+    for m in list(cls.methods.values()) + list(ctx.prog.cls("lock_provider.S3LockProviderBase").methods.values()):
+        mg = ctx.cfg(m)
+        msl = ctx.slicer(m)
+        for n in mg.nodes:
+            if n.kind == "stmt" and isinstance(n.ast, ast.Assign) and any(norm_text(t) == "self._etag" for t in n.ast.targets):
+                v = n.ast.value
+                if isinstance(v, ast.Constant) and v.value is None:
+                    continue
+                own = False
+                fns = set()
+                if isinstance(v, ast.Call) and isinstance(v.func, ast.Attribute) and v.func.attr == "get" and isinstance(v.func.value, ast.Name):
+                    defs = ctx.rd(m).reaching(n.id, v.func.value.id)
+                    srcs = []
+                    for d in defs:
+                        dn = mg.nodes[d]
+                        rhs = dn.ast.value if isinstance(dn.ast, ast.Assign) else None
+                        srcs.append((dotted(rhs.func) or "").split(".")[-1] if isinstance(rhs, ast.Call) else "?")
+                    fns = set(srcs)
+                    own = bool(srcs) and all(x == "put_object" for x in srcs)
+                elif isinstance(v, ast.Subscript) and isinstance(v.value, ast.Name):
+                    defs = ctx.rd(m).reaching(n.id, v.value.id)
+                    srcs = [(dotted(mg.nodes[d].ast.value.func) or "").split(".")[-1] if isinstance(mg.nodes[d].ast, ast.Assign)
+                            and isinstance(mg.nodes[d].ast.value, ast.Call) else "?" for d in defs]
+                    fns = set(srcs)
+                    own = bool(srcs) and all(x == "put_object" for x in srcs)
+                else:
+                    fns = {norm_text(v)[:40]}
+                ctx.ob(rid, m, "self._etag only holds the ETag of our own successful PUT", n, own,
+                       f"value is the ETag of the response of {sorted(fns)}: the cached ETag is the proof of OUR last write; an ETag read back from "
+                       "the object may be a successor's")
     rn = ctx.fn("lock_provider.S3LockProvider._renew_once")
     for p in ctx.calls(rn, prim="boto.put_object"):
         im = kwarg(p.ast, "IfMatch")
@@ -244,11 +276,11 @@ def r4(ctx: Ctx) -> None:
            bool(rets) and all(norm_text(r.ast.value) == "self._locked" for r in rets), "", nontrivial=False)  # type: ignore[union-attr]
 
 
-def r5(ctx: Ctx) -> None:
-    ctx.rule("C19.R5", "release: flock mode never unlinks the lock file; the S3 release deletes only under content == lock_id", 2)
+def r5(ctx: Ctx, rid: str = "C19.R5") -> None:
+    ctx.rule(rid, "release: flock mode never unlinks the lock file; the S3 release deletes only under content == lock_id", 2)
     rel = ctx.fn("file_lock.FileLock.release")
     g = ctx.cfg(rel)
-    unl = ctx.calls(rel, prim="os.unlink") + ctx.calls(rel, prim="os.remove")
+    unl = [n for n in g.calls() if ctx.eff.prims_reached(rel, n) & {"os.unlink", "os.remove", "shutil.rmtree", "method.unlink"}]
     brs = [b for b in g.nodes if b.kind == "branch" and "_used_excl_fallback" in b.text]
     for u in unl:
         ok = False
@@ -256,9 +288,9 @@ def r5(ctx: Ctx) -> None:
             t, fl = edge_target(g, b, "true"), edge_target(g, b, "false")
             if t is not None and u.id in reachable_from(g, t, NORMAL) and (fl is None or u.id not in reachable_from(g, fl, NORMAL)):
                 ok = True
-        ctx.ob("C19.R5", rel, "unlink only in O_EXCL fallback mode", u, ok,
+        ctx.ob(rid, rel, "unlink only in O_EXCL fallback mode", u, ok,
                "flock locks an inode: deleting the path would let a new process lock a different inode")
-    ctx.ob("C19.R5", rel, "release unlocks / closes the descriptor", None,
+    ctx.ob(rid, rel, "release unlocks / closes the descriptor", None,
            bool(ctx.calls(rel, prim="os.close")) and (bool(ctx.calls(rel, prim="fcntl.flock")) or bool(ctx.calls(rel, prim="msvcrt.locking"))),
            "LOCK_UN + close", nontrivial=False)
     sr = ctx.fn("lock_provider.S3LockProviderBase.release")
@@ -273,4 +305,4 @@ def r5(ctx: Ctx) -> None:
             rb = any(isinstance(c, ast.Call) and (dotted(c.func) or "").endswith("get_object") for c in org["calls"])
             if rb and t is not None and d.id in reachable_from(sg, t, NORMAL) and (fl is None or d.id not in reachable_from(sg, fl, NORMAL)):
                 ok = True
-        ctx.ob("C19.R5", sr, "delete_object only under content == lock_id", d, ok, "never delete a lock someone else now owns")
+        ctx.ob(rid, sr, "delete_object only under content == lock_id", d, ok, "never delete a lock someone else now owns")
